@@ -184,6 +184,22 @@ def optional_obs(tier, rnd):
 """
     obs.append(Ob("reorder.header", build([U32("a"), U32("b_"), U32("c"), I32("d")], body, setup=SETUP), "independent project header chunks in reverse order decode to the same project", group="reorder",
                   shape="REF-ENC project header, chunk order reversed after VERS", symbolic="4 field values", timeout=240))
+    # the two version chunks are independent fields too: either order, and either one absent, gives each its own value
+    body = """
+    hdr = RF.enc_project_header(version=(v0, v1, v2, v3), based_on_version=(b0, b1, b2, b3), initial_bpm=a)
+    assert bytes(hdr[1][:4]) == b"VERS" and bytes(hdr[2][:4]) == b"BVER"
+    if order == 1:
+        hdr = [hdr[0], hdr[2], hdr[1]] + hdr[3:]
+    elif order == 2:
+        hdr = [hdr[0]] + hdr[3:] + [hdr[2], hdr[1]]
+    elif order == 3:
+        hdr = [hdr[0]] + hdr[3:] + [hdr[1], hdr[2]]
+    p = load_bytes(RF.enc_project(header=hdr, modules=[RF.enc_output()]))
+    return tuple(p.loaded_sunvox_version) == (v0, v1, v2, v3) and tuple(p.based_on_version) == (b0, b1, b2, b3) and p.initial_bpm == a
+"""
+    obs.append(Ob("reorder.versions", build([R("order", 0, 3), U8("v0"), U8("v1"), U8("v2"), U8("v3"), U8("b0"), U8("b1"), U8("b2"), U8("b3"), U32("a")], body, setup=SETUP),
+                  "VERS and BVER in either order, at the start or at the end of the header: each version field has the value its own chunk denotes", group="reorder",
+                  shape="REF-ENC project header; VERS/BVER swapped and/or moved behind the other header chunks (symbolic selector)", symbolic="order selector, both version quadruples, BPM", timeout=240))
     return obs
 
 
